@@ -30,8 +30,8 @@ CHECKS = {
         note='R-mode; overlap graph assumed connected (the caller guarantee proved in C08); datasets large enough to reach a size-dependent code path (none exists on the unchanged tree) are outside.',
         ref='5/C05'),
     'C08': dict(
-        text='(a) get_connected_components / split_mapping_by_keys on every series-by-level incidence pattern (3x3 quick, 4x4 thorough) and level order: groups equal the true chains of overlap and the kept group is a largest one.  (b) get_series_time_offsets run twice on the same symbolic series (concrete level patterns from a small value set, symbolic abscissae): second run permuted (all permutations) with an arbitrary per-series axis shift; obligations: same intervals included, the included set is one whole group, offset+crossing of every interval at every level differs between the runs by one common constant, master curve likewise.',
-        note='R-mode; level values concrete (control flow depends only on them), abscissae and shifts symbolic reals; one open known finding (single-interval main body crashes).',
+        text='(a) get_connected_components / split_mapping_by_keys on every series-by-level incidence pattern (3x3 quick, 4x4 thorough) and level order: groups equal the true chains of overlap and the kept group is a largest one.  (b) get_series_time_offsets run twice on the same symbolic series (concrete level patterns from a small value set, symbolic abscissae): second run permuted (all permutations) with an arbitrary per-series axis shift; obligations: same intervals included, the included set is one whole group, offset+crossing of every interval at every level differs between the runs by one common constant, master curve likewise.  Shapes: 2+2, 2+2+2, 3+2, 3+3 series per group (thorough adds 2+2+2+2 and longer level patterns); two equally large groups and a main body of one interval are separate labelled obligations.',
+        note='R-mode; level values concrete (control flow depends only on them), abscissae and shifts symbolic reals; two open known findings (a single-interval main body raises ValueError; with two equally large groups the kept one depends on the presentation order).',
         ref='5/C08'),
     'C07': dict(
         text='(a1) the real classify_intervals on symsql at two symbolic integer origins e and e+delta with the same symbolic record (all validity patterns, G grid steps): every table equal up to the shift, by SMT/structural equality per cell; (a2) the whole workflow (classify, set-zeta-grid, rise, recession) on a planted record at two symbolic origins; (b) bit-precise: the rise flags that classify_interstorms computes for symbolic Float64 water levels and threshold at origins e and e+k*step (32-bit epochs via bit-vector twins) are captured and proved equal by an origin-cone decomposition over one-shot QF_BVFP queries; the increment threshold match_all_storms hands to match_storms is captured and compared the same way; witness replays through the real CLI at two dates.',
@@ -70,20 +70,20 @@ CHECKS = {
         note='R-mode; level record exact on the lattice; set.pop order fixed in the workflow harness; curved truths and longer records are outside.',
         ref='5/C06'),
     'C13': dict(
-        text='The real classify -> set-zeta-grid -> rise / recession run on symsql on patterned records whose water levels are pattern + symbolic d in (0, 1/8) mm (or exactly on the pattern) and whose storm intensities are symbolic: control flow is fixed by the pattern, every stored number is a term.  Per crossing row: its interval is a classified interval of the right kind, its level is in the grid, a rise crossing satisfies the segment equation from zero depth at its initial level to the depth of its own storm at its final level, a recession crossing is the mean of the chord crossings of its own samples (NRA implication per row), only own levels are reported; the grid covers the observed range; views equal the table means; plus the table-level C05 oracle.  Configurations: grid steps 1, 1/2 (2 thorough), a reference level, a hole in the level record, a coarse grid with a rise crossing no level.',
-        note='R-mode; three concrete level patterns; brentq contract = root strictly inside with the chord equation as a lazy fact; single-interval levels are dropped by the code (C08 finding) -- rows present are checked.',
+        text='The real classify -> set-zeta-grid -> rise / recession run on symsql on patterned records whose water levels are pattern + symbolic d in (0, 1/8) mm (or exactly on the pattern) and whose storm intensities are symbolic: control flow is fixed by the pattern, every stored number is a term.  Per crossing row: its interval is a classified interval of the right kind, its level is in the grid, a rise crossing satisfies the segment equation from zero depth at its initial level to the depth of its own storm at its final level, a recession crossing is the mean of the chord crossings of its own samples (NRA implication per row), only own levels are reported; the grid covers the observed range; views equal the table means; plus the table-level C05 oracle.  Configurations (a curated list, each proved non-vacuous by a reachability witness): four level patterns, grid steps 1, 1/2 (2 and 5 thorough), a reference level, a hole in the level record, a coarse grid with a rise crossing no level, set-zeta-grid repeated after the curves were assembled.',
+        note='R-mode; four concrete level patterns; brentq contract = root strictly inside with the chord equation as a lazy fact; single-interval levels are dropped by the code (C08 finding) -- rows present are checked.',
         ref='5/C13'),
     'C16': dict(
-        text='Transmissivity: PeatclsmTransmissivity with every parameter and the level symbolic (power function uninterpreted): value term equals Ksmacz0 pow(zeta_max - w/10, 1-alpha)/(100(alpha-1)), ValueError iff w/10 > zeta_max, array = scalar.  Specific yield (thorough tier): the real _construct_spline/get_Sy_soil/campbell_1d_az with symbolic sd, theta_s, b (normal cdf and pow uninterpreted), psi_s from six concrete values: all 201 tabulated values compared term by term with a transcription of the R reference (200- or 201-layer sum accepted), order-1 spline linear in between and constant beyond; a second object built in the same process with another sd must be right too.  Quick tier: transmissivity symbolically; the specific-yield table only as a numerical witness against the transcription.',
-        note='Rscript is absent: "reproduces the R reference" is checked against a transcription of the R file, numerically at the published parameters; the symbolic table costs ~10 min of z3 term construction per psi_s value and is therefore thorough-only.',
+        text='Transmissivity: PeatclsmTransmissivity with every parameter and the level symbolic (power function uninterpreted): value term equals Ksmacz0 pow(zeta_max - w/10, 1-alpha)/(100(alpha-1)), ValueError iff w/10 > zeta_max, array = scalar.  Specific yield: the real _construct_spline/get_Sy_soil/campbell_1d_az with symbolic sd, theta_s, b (normal cdf and pow uninterpreted), psi_s concrete (-0.024 quick; six values thorough): all 201 tabulated values compared term by term with a transcription of the R reference (200- or 201-layer sum accepted), order-1 spline linear in between and constant beyond; a second object built in the same process with the same soil parameters and another symbolic sd must be right too (the first level that is not the profile is reported with a model and replayed).',
+        note='Rscript is absent: "reproduces the R reference" is checked against a transcription of the R file, numerically at the published parameters; the symbolic table costs ~1-2 min of z3 term construction per psi_s value (80802 Campbell cells).',
         ref='5/C16'),
     'C19': dict(
-        text='The real pestfiles generators and simulate commands run on a symsql dataset with symbolic interval offsets; formatting a term leaves a token (term, spec) in the text.  Obligations: declared counts = lines, parameter names = template placeholders (case-insensitive), filled template parses back to the parameters, k-th observation token is the k-th master-curve value with >= 17 significant digits, named e_k, the instruction file walks the simulator output and its k-th extraction is the value simulated at the level of the k-th observation (two neighbouring simulated values left unordered), both parameterisations, rise and curves.  The width of the instruction window is decided by a z3 integer model of the length of a printed double; the model is turned into a concrete double and replayed through the real yaml.dump (open known finding: window 22 characters, numbers up to 24).',
+        text='The real pestfiles generators and simulate commands run on a symsql dataset with symbolic interval offsets; formatting a term leaves a token (term, spec) in the text.  Obligations: declared counts = lines, parameter names = template placeholders (case-insensitive), filled template parses back to the parameters, k-th observation token is the k-th master-curve value with >= 17 significant digits, named e_k, the instruction file walks the simulator output and its k-th extraction is the value simulated at the level of the k-th observation (two neighbouring simulated values left unordered), both parameterisations, rise and curves, also when an earlier call in the same process used another precision.  The width of the instruction window is decided by a z3 integer model of the length of a printed double; the model is turned into a concrete double and replayed through the real yaml.dump (open known finding: window 22 characters, numbers up to 24).',
         note='R-mode tokens; simulated numbers opaque; PEST itself outside.',
         ref='5/C19'),
     'C20': dict(
         level='fault_enumeration',
-        text='The real user_interface.main runs each step (classify, set-zeta-grid, set-curvature, rise, recession) on a real SQLite file with sqlite3 rebound to a statement-counting proxy: for every statement index k of every step (executemany unrolled, commits included) and both fault kinds (raise OperationalError / kill the process in a forked child so that the next open goes through hot-journal recovery) the file afterwards equals its previous content or the complete result, and the step can be re-run to the complete result; all 12 orders of the independent steps (plus one failed attempt at every position, thorough) give the same final dump.  k, kind, step, order and position are engine choices whose ranges are closed by the solver.',
+        text='The real user_interface.main runs each step (classify, set-zeta-grid, set-curvature, rise, recession) on a real SQLite file with sqlite3 rebound to a statement-counting proxy: for every statement index k of every step (executemany unrolled, commits included) and both fault kinds (raise OperationalError / kill the process in a forked child so that the next open goes through hot-journal recovery) the file afterwards equals its previous content or the complete result, and the step can be re-run to the complete result; all 12 orders of the independent steps (plus one failed attempt at every position, thorough) give the same final dump; repeating a step that already completed (every step, with and without a fault in the repetition) leaves the complete result.  k, kind, step, order and position are engine choices whose ranges are closed by the solver.',
         note='Data concrete (planted record with a hole in the level record and a rainless jump to the record maximum); durability below the SQLite API and load are outside.',
         technique='fault enumeration on the real code and a real SQLite file, fault index / kind / order chosen and exhausted by the symx engine (z3 closes each range)',
         ref='5/C20'),
